@@ -43,8 +43,22 @@ pub fn child(args: &[String]) -> i32 {
             app(&Record::builder().level(l).target("t").args(format_args!("{}", msg)).build());
         }
     };
+    if target == "abrupt" {
+        // the process ends without running the runtime's exit handlers: whatever an append that has returned left in
+        // a buffer of the process is lost
+        let app = ConsoleAppender::builder().encoder(Box::new(PatternEncoder::new("{m}"))).target(Target::Stdout).build();
+        for m in ["a\nb", "tail"] {
+            let _ = app.append(&Record::builder().level(Level::Info).target("t").args(format_args!("{}", m)).build());
+        }
+        unsafe { libc::_exit(0) }
+    }
     match build {
-        "builder" => {
+        "builder" | "builder-second" => {
+            if build == "builder-second" {
+                // another console appender, for the *other* stream, was built (and used) first in this process
+                let other = ConsoleAppender::builder().encoder(Box::new(PatternEncoder::new(""))).target(if target == "stderr" { Target::Stdout } else { Target::Stderr }).tty_only(true).build();
+                let _ = other.append(&Record::builder().level(Level::Info).target("t").args(format_args!("")).build());
+            }
             let mut b = ConsoleAppender::builder().encoder(Box::new(PatternEncoder::new(PATTERN))).target(if target == "stderr" { Target::Stderr } else { Target::Stdout });
             if tty_only != "absent" {
                 b = b.tty_only(tty_only == "1");
@@ -447,7 +461,7 @@ pub fn cells() -> Vec<Cell> {
             for clicolor_force in vals {
                 for target in ["stdout", "stderr"] {
                     for target_is_tty in [true, false] {
-                        for (tty_only, build) in [("0", "builder"), ("1", "builder"), ("1", "file"), ("absent", "file"), ("1", "file-notarget"), ("0", "file-notarget")] {
+                        for (tty_only, build) in [("0", "builder"), ("1", "builder"), ("1", "file"), ("absent", "file"), ("1", "file-notarget"), ("0", "file-notarget"), ("1", "builder-second")] {
                             // without a `target` key the appender writes to stdout
                             if build == "file-notarget" && target != "stdout" {
                                 continue;
@@ -491,6 +505,20 @@ pub fn run(ctx: &Ctx) -> Report {
             }
         }
     }
+    // what an append that has returned wrote is on the stream even if the process then ends abruptly
+    let o = crate::engine::proc::run_child(&ctx.exe, "c18", &["abrupt".to_string(), "0".to_string(), "builder".to_string()], &[], std::time::Duration::from_secs(30));
+    if o.status != Some(0) || o.timed_out {
+        eprintln!("MACHINERY FAILURE: console child (abrupt exit) failed: status {:?} stderr {}", o.status, String::from_utf8_lossy(&o.stderr));
+        std::process::exit(2);
+    }
+    rep.add("evaluations", 1);
+    if o.stdout != b"a\nbtail" {
+        rep.violation(
+            "abrupt-exit:text-of-returned-append-not-on-stream",
+            format!("two records \"a\\nb\" and \"tail\" (pattern {{m}}, stdout a pipe), then _exit: the pipe holds {:?}", String::from_utf8_lossy(&o.stdout)),
+            json!({"abrupt": true}),
+        );
+    }
     rep.add("evaluations", cs.len() as u64);
     rep.set("matrix_cells", cs.len() as u64);
     rep.set("distinct_nontrivial", cs.iter().filter(|c| c.tty_only == "1" || c.no_color.is_some() || c.clicolor.is_some() || c.clicolor_force.is_some()).count() as u64);
@@ -510,6 +538,11 @@ pub fn replay(case: &Value) -> Result<(), String> {
             Some(v) => Err(format!("{}: {}", v.signature, v.detail)),
             None => Ok(()),
         };
+    }
+    if case.get("abrupt").is_some() {
+        let exe = std::env::current_exe().map_err(|e| e.to_string())?;
+        let o = crate::engine::proc::run_child(&exe, "c18", &["abrupt".to_string(), "0".to_string(), "builder".to_string()], &[], std::time::Duration::from_secs(30));
+        return if o.stdout == b"a\nbtail" { Ok(()) } else { Err(format!("abrupt-exit:text-of-returned-append-not-on-stream: the pipe holds {:?}", String::from_utf8_lossy(&o.stdout))) };
     }
     let leak = |s: Option<&str>| -> Option<&'static str> { s.map(|x| -> &'static str { Box::leak(x.to_string().into_boxed_str()) }) };
     let c = Cell {
